@@ -324,7 +324,12 @@ class ReactorMap(Unit):
                                                                     self.witness_key(model, label)))
 
 
-def units(tier):
+def _own_units(tier):
     us = [IdTable(*t) for t in TABLES]
     us += [ReactorMap(c) for c in (PacketReactor, StatusReactor, LoginReactor, PlayingReactor)]
     return us
+
+
+def units(tier):
+    from .deps import dependency_units
+    return _own_units(tier) + dependency_units('C06')
